@@ -758,6 +758,15 @@ func (e *ConditionalExpr) Value(ctx *hcl.EvalContext) (cty.Value, hcl.Diagnostic
 	}
 
 	if resultType == cty.NilType {
+		diags = append(diags, trueDiags...)
+		diags = append(diags, falseDiags...)
+		if diags.HasErrors() {
+			// A result expression that failed yields a placeholder, whose
+			// type can differ from the other result's only as a consequence
+			// of that failure: its own errors are what there is to report.
+			return cty.DynamicVal, diags
+		}
+
 		// The detailed description names object attributes, which come from
 		// evaluated object keys, so we only give it when neither result
 		// contains marked values.
@@ -765,20 +774,19 @@ func (e *ConditionalExpr) Value(ctx *hcl.EvalContext) (cty.Value, hcl.Diagnostic
 		if !trueResult.ContainsMarked() && !falseResult.ContainsMarked() {
 			mismatch = describeConditionalTypeMismatch(trueResult.Type(), falseResult.Type())
 		}
-		return cty.DynamicVal, hcl.Diagnostics{
-			{
-				Severity: hcl.DiagError,
-				Summary:  "Inconsistent conditional result types",
-				Detail: fmt.Sprintf(
-					"The true and false result expressions must have consistent types. %s.",
-					mismatch,
-				),
-				Subject:     hcl.RangeBetween(e.TrueResult.Range(), e.FalseResult.Range()).Ptr(),
-				Context:     &e.SrcRange,
-				Expression:  e,
-				EvalContext: ctx,
-			},
-		}
+		diags = append(diags, &hcl.Diagnostic{
+			Severity: hcl.DiagError,
+			Summary:  "Inconsistent conditional result types",
+			Detail: fmt.Sprintf(
+				"The true and false result expressions must have consistent types. %s.",
+				mismatch,
+			),
+			Subject:     hcl.RangeBetween(e.TrueResult.Range(), e.FalseResult.Range()).Ptr(),
+			Context:     &e.SrcRange,
+			Expression:  e,
+			EvalContext: ctx,
+		})
+		return cty.DynamicVal, diags
 	}
 
 	condResult, condDiags := e.Condition.Value(ctx)
